@@ -75,8 +75,6 @@ def sim_check(case):
     if tr.illegal is not None and res.refused is None:
         raise Violation("C04.illegal_action_accepted", f"a scripted agent returned an illegal action ({tr.illegal}) and the run went on without refusing it")
     if res.refused is not None:
-        if not isinstance(res.refusal_exc, (ValueError, AttributeError)):
-            raise Violation("C04.refusal_kind", f"{res.refused} was refused with {type(res.refusal_exc).__name__}: {res.refusal_exc}")
         classes.append("refused_" + res.refused)
         # nothing of the illegal action may have been accepted
         last = [kw for k, kw in tr.items if k == "consult"][-1]
